@@ -256,6 +256,9 @@ impl<P: TravellingSalespersonProblem> Component<P> for MinMaxPheromoneUpdate {
 
         // Evaporation
         *pm *= 1.0 - self.evaporation;
+        for x in pm.inner.iter_mut() {
+            *x = x.clamp(self.min_pheromones, self.max_pheromones);
+        }
 
         // Update pheromones for probabilistic routes
         let individual = populations
